@@ -65,7 +65,7 @@ func vpFlagOf(utp *UnconfirmedTransactionPool, t *coin.Transaction) int {
 }
 
 //vp:prop C06
-//vp:bounds 2 transactions; history: inject A (free verdict), optionally re-inject A (free verdict), inject B (free verdict), then one of: refresh (free new verdicts), remove-invalid (free hard verdicts), removal of A on block execution; every verdict in {ok, soft violation, hard violation, other error}
+//vp:bounds 2 transactions; history: inject A (free verdict), optionally re-inject A (free verdict), inject B (free verdict), then one of: refresh (free new verdicts), remove-invalid (free hard verdicts), removal on execution of a block holding A, optionally B and a transaction unknown to this node, in any order; every verdict in {ok, soft violation, hard violation, other error}
 //vp:assume bolt replaced by a key/value model at the dbutil seam; transaction ids are concrete distinct tags; rule checking summarised by free per-transaction verdicts (C09/C11)
 //vp:rule (*github.com/skycoin/skycoin/src/coin.Transaction).Hash model:vpModelTxnHashTag
 //vp:rule github.com/skycoin/skycoin/src/visor/dbutil.GetBucketValueNoCopy model:vpKVGet
@@ -163,10 +163,34 @@ func vpH_C06_PoolHistory() {
 			}
 		}
 		vpAssert(len(removed) == cnt, "remove_invalid_reports_what_it_removed")
-	case 2: // a block containing A was executed
-		err := utp.RemoveTransactions(nil, []cipher.SHA256{txns[0].Hash()})
+	case 2: // a block containing A (and possibly B and a transaction this node never saw, in any order) was executed
+		unknown := vpPoolTxn(2)
+		inclB, inclU := vpBool("blockHasB"), vpBool("blockHasUnknown")
+		list := []cipher.SHA256{txns[0].Hash()}
+		if inclB {
+			if vpBool("bFirst") {
+				list = []cipher.SHA256{txns[1].Hash(), txns[0].Hash()}
+			} else {
+				list = append(list, txns[1].Hash())
+			}
+		}
+		if inclU {
+			pos := vpLen("unknownPosition", 0, len(list))
+			list = append(list[:pos:pos], append([]cipher.SHA256{unknown.Hash()}, list[pos:]...)...)
+		}
+		err := utp.RemoveTransactions(nil, list)
 		vpAssert(err == nil, "removal_succeeds")
 		vpAssert(vpFlagOf(utp, &txns[0]) == -1, "transaction_in_an_accepted_block_leaves_the_pool")
-		vpAssert(vpFlagOf(utp, &txns[1]) == expect[1], "other_transaction_stays")
+		if inclB {
+			vpAssert(vpFlagOf(utp, &txns[1]) == -1, "transaction_in_an_accepted_block_leaves_the_pool")
+		} else {
+			vpAssert(vpFlagOf(utp, &txns[1]) == expect[1], "other_transaction_stays")
+		}
+		n2, _ := utp.Len(nil)
+		left := 0
+		if !inclB && expect[1] >= 0 {
+			left = 1
+		}
+		vpAssert(n2 == uint64(left), "pool_size_after_block_removal")
 	}
 }
